@@ -2148,6 +2148,10 @@ class Node(SimComponent, ABC):
             self._shut_down_actions()
             self.operating_state = NodeOperatingState.OFF
             self.sys_log.info("Power off")
+            # a reset is a shutdown followed by an automatic start: on the timed path apply_timestep issues it, here it is due now
+            if self.config.is_resetting:
+                self.config.is_resetting = False
+                self.power_on()
             return True
         if self.operating_state == NodeOperatingState.ON:
             for network_interface in self.network_interfaces.values():
